@@ -51,6 +51,8 @@ pub struct Gs1Player {
 
 #[derive(Clone, Debug)]
 pub struct Gs1State {
+    /// numeric player fields are sent with a leading blank, as Unreal-engine servers do (`\\ping_0\\ 38`)
+    pub pad_numbers: bool,
     pub hostname: String,
     pub mapname: String,
     pub maptitle: Option<String>,
@@ -123,6 +125,7 @@ impl Gs1State {
             })
             .collect();
         Self {
+            pad_numbers: t.draw(DATA, 6) == 0,
             hostname: gs_str(t, 60),
             mapname: gs_str(t, 30),
             maptitle: opt(t).then(|| gs_str(t, 30)),
@@ -170,10 +173,11 @@ impl Gs1State {
         v.extend(self.extras.iter().cloned());
         for (i, p) in self.players.iter().enumerate() {
             v.push((format!("{}_{i}", if p.name_key_alt { "playername" } else { "player" }), p.name.clone()));
-            v.push((format!("frags_{i}"), p.frags.to_string()));
-            v.push((format!("ping_{i}"), p.ping.to_string()));
+            let num = |x: String| if self.pad_numbers { format!(" {x}") } else { x };
+            v.push((format!("frags_{i}"), num(p.frags.to_string())));
+            v.push((format!("ping_{i}"), num(p.ping.to_string())));
             if let Some(x) = p.team {
-                v.push((format!("team_{i}"), x.to_string()));
+                v.push((format!("team_{i}"), num(x.to_string())));
             }
             if let Some(x) = &p.mesh {
                 v.push((format!("mesh_{i}"), x.clone()));
@@ -188,10 +192,10 @@ impl Gs1State {
                 v.push((format!("ngsecret_{i}"), x.to_string()));
             }
             if let Some(x) = p.deaths {
-                v.push((format!("deaths_{i}"), x.to_string()));
+                v.push((format!("deaths_{i}"), num(x.to_string())));
             }
             if let Some(x) = p.health {
-                v.push((format!("health_{i}"), x.to_string()));
+                v.push((format!("health_{i}"), num(x.to_string())));
             }
         }
         v
